@@ -5,7 +5,7 @@ def build(tier):
     obs = []
     base = dict(ext_t=False, ext_m=False, sep2=False, excl_root=False, out_i=0)
     # C17.a relational: other listing order / other working directory + relative input path => identical writes
-    for sk in (["S1", "S2"] if quick else ["S1", "S2", "S2b", "S3"]):
+    for sk in (["S1", "S2q"] if quick else ["S1", "S2", "S2b", "S3"]):
         for rec in (False, True):
             if sk == "S1" and rec:
                 continue
@@ -13,7 +13,7 @@ def build(tier):
                                      timeout=400 if quick else 2400))
     obs.append(trees.tree_ob("C17.a", "S1", "rel", dict(base, recursive=False, auto_ex=True), fixexcl=True, timeout=400 if quick else 2400, note=" (prefix)"))
     # documenting another input (directory or lone file) before, in the same run with the same Settings object
-    for (sk, rec) in ((("S1", False), ("S2", True)) if quick else (("S1", False), ("S2", True), ("S3", True), ("S2b", True))):
+    for (sk, rec) in ((("S1", False), ("S2q", True)) if quick else (("S1", False), ("S2", True), ("S3", True), ("S2b", True))):
         obs.append(trees.tree_ob("C17.a", sk, "hist", dict(base, recursive=rec, auto_ex=False), fixexcl=True, fixrev=True, timeout=400 if quick else 2400,
                                  note=" (other input processed first with the same settings object)"))
     # C17.c / C12 lone file: title and module name do not depend on the absolute location (base name only)
